@@ -81,24 +81,28 @@ StageName == <<"wireshark", "objects", "docs", "implementation_types", "modules"
 NStages == 7
 
 (* well-formedness of the constants (an invariant in every configuration) *)
-ConstOK == \A p \in Paths :
-    /\ Class[p] \in Classes /\ Stage[p] \in 1..NStages /\ Produced[p] \in BOOLEAN
-    /\ Class[p] = "obj"   => Stage[p] = 2
-    /\ Class[p] = "doc"   => Stage[p] = 3
-    /\ Class[p] = "tail"  => Stage[p] = 3
-    /\ Class[p] = "modrs" => Stage[p] = 5
-    /\ Class[p] = "opc"   => Stage[p] = 6
-    /\ Class[p] = "ins"   => Stage[p] \in {4, 7}
-    /\ Class[p] = "whole" => Stage[p] \in {1, 7}
-    \* a path with hand-written text is always "produced": nothing else could recreate it
-    /\ Class[p] \in {"tail", "ins", "whole"} => Produced[p]
+ConstOK ==
+    LET cls == Class
+        stg == Stage
+        prd == Produced
+    IN  \A p \in Paths :
+        /\ cls[p] \in Classes /\ stg[p] \in 1..NStages /\ prd[p] \in BOOLEAN
+        /\ cls[p] = "obj"   => stg[p] = 2
+        /\ cls[p] = "doc"   => stg[p] = 3
+        /\ cls[p] = "tail"  => stg[p] = 3
+        /\ cls[p] = "modrs" => stg[p] = 5
+        /\ cls[p] = "opc"   => stg[p] = 6
+        /\ cls[p] = "ins"   => stg[p] \in {4, 7}
+        /\ cls[p] = "whole" => stg[p] \in {1, 7}
+        \* a path with hand-written text is always "produced": nothing else could recreate it
+        /\ cls[p] \in {"tail", "ins", "whole"} => prd[p]
 
 (* ModFiles scans logon/, world/, inner/ *)
 Managed(p) == Class[p] \in {"obj", "modrs", "opc"}
 (* ... and marks what goes through ModFiles::write_file *)
 ViaModFiles(p) == Class[p] \in {"obj", "modrs"}
 
-Canon == [p \in Paths |-> IF Produced[p] THEN "correct" ELSE "absent"]
+Canon == LET prod == Produced IN [p \in Paths |-> IF prod[p] THEN "correct" ELSE "absent"]
 
 (* The property's quantifier: "complete, with arbitrary generated files deleted, truncated,   *)
 (* stale or extra".  A file that carries hand-written text is perturbed only inside its        *)
@@ -112,7 +116,9 @@ NonCanon(p) ==
 
 InDomain(t) == \A p \in Paths : t[p] = Canon[p] \/ t[p] \in NonCanon(p)
 
-Left0 == [s \in 1..NStages |-> Cardinality({p \in Paths : Produced[p] /\ Stage[p] = s})]
+Left0 == LET prod == Produced
+             stg  == Stage
+         IN  [s \in 1..NStages |-> Cardinality({p \in Paths : prod[p] /\ stg[p] = s})]
 
 NoOp == [k |-> "none", p |-> NoPath, ex |-> FALSE, n |-> 0]
 
